@@ -82,7 +82,7 @@ def decodeBody (b32 down : Codec) (code : Nat) (data : List Nat) : Dec Resp :=
             match r with
             | [] => .err
             | st :: txt => if st % 2 = 1 then .ok (.version ver uid (errText txt)) else .ok (.version ver uid none)
-    | _ => .panic
+    | _ => .err        -- "Version response too short!"
   else if code = 111 then
     match b32.dec rest with
     | none => .err
@@ -301,8 +301,11 @@ def insertByKey (x : Int × RR) : List (Int × RR) → List (Int × RR)
 /-- stable sort by priority (sort.Slice is not stable; keys are distinct on every path driven) -/
 def sortByKey (xs : List (Int × RR)) : List (Int × RR) := xs.foldr insertByKey []
 
+/-- the target of a name-carrying record without its last `len(domain)+2` characters — the *configured
+    spelling's* length, whatever miekg printed.  A target too short for that holds no data: the record is
+    skipped (repaired code; it was a slice panic). -/
 def stripNameTail (name : List Nat) (domainLen : Nat) : Option (List Nat) :=
-  if name.length < domainLen + 2 then none else some (name.take (name.length - domainLen - 2))
+  if name.length < domainLen + 2 then some [] else some (name.take (name.length - domainLen - 2))
 
 def nameData (s : List Nat) : List Nat :=
   if SA.Gen.C09.unwrapUnescapesNames then unescapePresentation true s else undotify s
@@ -339,9 +342,20 @@ inductive Outcome
   | ok (answers unwrapped : Nat) (r : Resp)
   deriving DecidableEq, Repr
 
+/-- does the spelling end in an unescaped dot (a final '.' after an even number of backslashes)? -/
+def endsInUnescapedDot (s : List Nat) : Bool :=
+  match s.reverse with
+  | c :: before => c == dot && (before.takeWhile (· == bsl)).length % 2 == 0
+  | [] => false
+
+/-- the query the answer replies to: a name under the tunnel domain, fully qualified exactly once however
+    the domain is spelled in the configuration (harness `questionNameFor`) -/
+def questionName (domain : List Nat) : List Nat :=
+  [99, 97, 98, 99, 48, 48, dot] ++ domain ++ (if endsInUnescapedDot domain then [] else [dot])
+
 /-- the question name `cabc00.<domain>.` of the harness must itself pack (domain labels ≤ 63, …) -/
 def questionOk (domain : List Nat) : Bool :=
-  match nameOverWire ([99, 97, 98, 99, 48, 48, dot] ++ domain ++ [dot]) with
+  match nameOverWire (questionName domain) with
   | .ok _ => true
   | .error _ => false
 
@@ -420,14 +434,28 @@ def parseRRType (s : String) : Option RRType :=
   else if s = "srv" then some .srv else if s = "mx" then some .mx else if s = "cname" then some .cname
   else if s = "aaaa" then some .aaaa else if s = "a" then some .a else none
 
-def handle : List String → String
+/-- the downstream codec of an op line -/
+def ofLetterResp (letter : Nat) (o : Oracle) : Option Codec :=
+  match SA.Codec.fromCode letter with
+  | none => none
+  | some .b32 => some (ofC08 .b32)
+  | some .b64 => some (ofC08 .b64)
+  | some .b64u => some (ofC08 .b64u)
+  | some .raw => some (ofC08 .raw)
+  | some _ => some (tableCodec o)
+
+/-- one response op -/
+def handleOne : List String → String
   | codec :: domain :: rr :: oracle :: fields =>
     match codec.toList, parseRRType rr, parseResp fields with
     | [c], some t, some r =>
-      match ofLetter c.toNat (parseOracle oracle) with
+      -- Base32/64/64u/Raw are property C08's models (exact also on streams no encoder produced: a tunnel domain
+      -- that is measured wrongly leaves foreign characters in the stream); Base85/91/128 are looked up from the
+      -- op line's table of what the real codec answered in this very case
+      match ofLetterResp c.toNat (parseOracle oracle) with
       | none => "bad-op"
       | some down =>
-        match roundTrip base32 down t (strBytes domain) r with
+        match roundTrip (ofC08 .b32) down t (strBytes domain) r with
         | .encError => "enc-error"
         | .packError => "pack-error"
         | .unpackError => "unpack-error"
@@ -436,5 +464,29 @@ def handle : List String → String
         | .ok a u r' => s!"ok {a} {u} {render r'}"
     | _, _, _ => "bad-op"
   | _ => "bad-op"
+
+/-! ### several responses at the same moment
+
+The server forms every answer on the goroutine of its query, through the same downstream codec singletons,
+`wrap.go` and serializer values; the model of the response path is a function of the one response, so a
+batch processed concurrently is the list of the single results (`C10_batch_pointwise`).  The `par` op of the
+`dnsresp` component drives the real code that way and compares. -/
+
+/-- split an op list at the separator token `;` -/
+def splitOps : List String → List (List String)
+  | [] => [[]]
+  | t :: rest =>
+    match splitOps rest with
+    | [] => [[t]]          -- unreachable: splitOps never returns []
+    | cur :: more => if t == ";" then [] :: cur :: more else (t :: cur) :: more
+
+def handleBatch (ops : List (List String)) : List String := ops.map handleOne
+
+def handle : List String → String
+  | "par" :: g :: iters :: rest =>
+    let ops := splitOps rest
+    if g.toNat?.isNone || iters.toNat?.isNone || ops.any (fun o => o.isEmpty || o.head? == some "par") then "bad-op"
+    else String.intercalate " ; " (handleBatch ops)
+  | ts => handleOne ts
 
 end SA.DnsResp
